@@ -606,24 +606,28 @@ def correspondence(ctx, res, inp, pc, epcols, ep_scalar, sepv, cm, npx, calls, c
         res.stat("cases_with_duplicates")
     if int(m0["dties"]) > 0:
         res.stat("cases_with_equal_mass_duplicates")
-        # equal mass AND exactly equal sum of rescaled coordinates: where_close then compares the two
-        # float sums of pos/separation, which rounding can make unequal (e.g. 23.125/6 + 40/6 vs
-        # 25.5/6 + 37.625/6): the exact model cannot know which row rounding favours -> borderline
+        # equal mass: where_close then compares the two FLOAT sums of pos/separation.  When rounding
+        # orders them differently from the exact sums (exactly equal rationals such as 23.125/6 + 40/6
+        # vs 25.5/6 + 37.625/6, or positions one ulp apart) the exact model cannot know which row
+        # rounding favours -> borderline
         P = ref[pc].values.astype(float)
         M = ref["mass"].values.astype(float)
         sv = np.asarray(sepv, dtype=float)
         if (sv > 0).all():
             PR = P / sv
             fs = PR.sum(1)
+
+            def sgn(v):
+                return (v > 0) - (v < 0)
             for i in range(len(P)):
                 for j in range(i + 1, len(P)):
-                    if M[i] == M[j] and fs[i] != fs[j] and \
-                            sum(Fraction(float(a)) / Fraction(float(b)) for a, b in zip(P[i], sv)) == \
-                            sum(Fraction(float(a)) / Fraction(float(b)) for a, b in zip(P[j], sv)) and \
-                            float(((PR[i] - PR[j]) ** 2).sum()) < 1.0 + 1e-6:
-                        res.borderline = True
-                        res.stat("cases_borderline_tie_decided_by_rounding")
-                        return
+                    if M[i] == M[j] and float(((PR[i] - PR[j]) ** 2).sum()) < 1.0 + 1e-6:
+                        ex = sum(Fraction(float(a)) / Fraction(float(b)) for a, b in zip(P[i], sv)) - \
+                            sum(Fraction(float(a)) / Fraction(float(b)) for a, b in zip(P[j], sv))
+                        if sgn(ex) != sgn(float(fs[i]) - float(fs[j])):
+                            res.borderline = True
+                            res.stat("cases_borderline_tie_decided_by_rounding")
+                            return
     if m0["dmargin"] != "n" and 0 < Fraction(m0["dmargin"]) and float(Fraction(m0["dmargin"])) < 1e-6:
         res.borderline = True
         res.stat("cases_borderline_duplicate_distance")
